@@ -193,4 +193,18 @@ PROPS = {
         "not_decided": ["TSD published/modified bits, TSL/TSB delta bits, tick-count windows (not yet under contract)",
                         "nested TSD-of-TSD coherence", "stable_slot_store growth (slot identity)"],
     },
+    "C19": {
+        "modules": ["contracts.c19_resolution"],
+        "level": "proof",
+        "design_ref": "DESIGN.md section 8, C19",
+        "trusted_base": [
+            "normalize_call and try_match are deterministic per candidate (their verdict and rank adjustment do not depend on the order of candidates)",
+            "std::stable_sort yields a stable sorted permutation (library model); fmt formatting is message text only",
+            "verified configuration of resolve: no wiring observers (diagnostic-only code dead), no caller-pinned size hints, winner without keyword arguments",
+            "rank functions: induction over the (finite) pattern tree; sub-pattern ranks are the spec ranks",
+        ],
+        "assumptions": [],
+        "not_decided": ["try_match internals (scalars, defaults, requires predicates)", "the output pattern substitution used by wire (template code outside clang 14's reach)",
+                        "pattern match/resolve round trip (ts_pattern_match / _resolve)"],
+    },
 }
